@@ -53,6 +53,36 @@ type fixture struct {
 	c      *chains
 	vn     *p2p.VerifNode
 	syncer *lsync.Syncer
+	// after the first `chain` op (chainops.go): a private responder node whose chain the case changes
+	own  *node.Node
+	cur  []*blockchain.Block // its current chain by height
+	sib  map[string][]byte   // token s<k> -> id of the k-th block built by a `chain new` op
+	sibT map[string]string   // id -> token
+	ctr  int
+	maxH int
+}
+
+// chain is the responder's current chain.
+func (f *fixture) chain() []*blockchain.Block {
+	if f.cur != nil {
+		return f.cur
+	}
+	return f.c.pBlocks
+}
+
+func (f *fixture) tok(id []byte) string { return f.c.token(id, f.sibT) }
+
+// resolve maps a token of the line protocol to an id (s<k>: a block built by `chain new`).
+func (f *fixture) resolve(tok string) ([]byte, error) {
+	if id, ok := f.sib[tok]; ok {
+		return id, nil
+	}
+	if len(tok) >= 2 && tok[0] == 's' {
+		if _, err := strconv.Atoi(tok[1:]); err == nil {
+			return unknownID(tok), nil // a block that was not built (yet): on no chain
+		}
+	}
+	return f.c.resolve(tok)
 }
 
 func newFixture(c *chains) (*fixture, error) {
@@ -65,7 +95,12 @@ func newFixture(c *chains) (*fixture, error) {
 	return &fixture{c: c, vn: vn, syncer: s}, nil
 }
 
-func (f *fixture) close() { f.vn.Close() }
+func (f *fixture) close() {
+	f.vn.Close()
+	if f.own != nil {
+		f.own.Close()
+	}
+}
 
 // call runs one handler with a hand-made request; banned reports whether the handler banned and
 // disconnected the requesting peer.
@@ -100,11 +135,15 @@ func (f *fixture) lastBlock() (string, []corr.Fail) {
 		return "undecodable", []corr.Fail{fail("c19-last-block-wrong", "getLastBlock response does not decode: %v", err)}
 	}
 	var fails []corr.Fail
-	tip := f.c.pBlocks[len(f.c.pBlocks)-1]
+	tip := f.chain()[len(f.chain())-1]
 	if !bytes.Equal(w.data, tip.Encode()) {
-		fails = append(fails, fail("c19-last-block-wrong", "getLastBlock returned height %d, the tip is %d", b.Header.Height, tip.Header.Height))
+		if f.cur != nil {
+			fails = append(fails, fail("c19-handler-stale-chain", "getLastBlock returned block %s (height %d) after the responder's chain changed; its tip is %s (height %d)", f.tok(b.Header.ID), b.Header.Height, f.tok(tip.Header.ID), tip.Header.Height))
+		} else {
+			fails = append(fails, fail("c19-last-block-wrong", "getLastBlock returned height %d, the tip is %d", b.Header.Height, tip.Header.Height))
+		}
 	}
-	return "tip " + f.c.token(b.Header.ID, nil), fails
+	return "tip " + f.tok(b.Header.ID), fails
 }
 
 // highestCommon: ids == nil && !structured means raw data given in data.
@@ -148,22 +187,22 @@ func (f *fixture) highestCommon(data []byte, ids [][]byte, structured bool) (str
 	if structured {
 		// model-free oracle from the responder's chain: the requested id of greatest height on it
 		var want []byte
-		for h := len(f.c.pBlocks) - 1; h >= 0 && want == nil; h-- {
+		for h := len(f.chain()) - 1; h >= 0 && want == nil; h-- {
 			for _, id := range ids {
-				if bytes.Equal(id, f.c.pBlocks[h].Header.ID) {
+				if bytes.Equal(id, f.chain()[h].Header.ID) {
 					want = id
 					break
 				}
 			}
 		}
 		if !bytes.Equal(want, got) {
-			fails = append(fails, fail("c19-highest-common-wrong", "answered %s, the highest requested block on the responder chain is %s", f.c.token(got, nil), f.c.token(want, nil)))
+			fails = append(fails, fail("c19-highest-common-wrong", "answered %s, the highest requested block on the responder chain is %s", f.tok(got), f.tok(want)))
 		}
 	}
 	if len(got) == 0 {
 		return "none", fails
 	}
-	return "id " + f.c.token(got, nil), fails
+	return "id " + f.tok(got), fails
 }
 
 func (f *fixture) blocksFromID(data []byte, id []byte, structured bool) (string, []corr.Fail) {
@@ -184,7 +223,7 @@ func (f *fixture) blocksFromID(data []byte, id []byte, structured bool) (string,
 	}
 	known := -1
 	if structured {
-		for h, b := range f.c.pBlocks {
+		for h, b := range f.chain() {
 			if bytes.Equal(b.Header.ID, id) {
 				known = h
 			}
@@ -213,8 +252,8 @@ func (f *fixture) blocksFromID(data []byte, id []byte, structured bool) (string,
 		} else {
 			// model-free oracle: exactly the blocks of heights known+1 .. min(known+cap, tip), in order
 			to := known + lsync.VerifC19MaxBlocksPerResponse
-			if to > len(f.c.pBlocks)-1 {
-				to = len(f.c.pBlocks) - 1
+			if to > len(f.chain())-1 {
+				to = len(f.chain()) - 1
 			}
 			if len(resp.Blocks) != to-known {
 				fails = append(fails, fail("c19-blocks-from-id-wrong", "%d blocks after height %d, want %d", len(resp.Blocks), known, to-known))
@@ -222,11 +261,11 @@ func (f *fixture) blocksFromID(data []byte, id []byte, structured bool) (string,
 			prev := id
 			for i, b := range resp.Blocks {
 				h := known + 1 + i
-				if h >= len(f.c.pBlocks) {
+				if h >= len(f.chain()) {
 					break
 				}
 				b.Init()
-				if int(b.Header.Height) != h || !bytes.Equal(b.Header.PreviousBlockID, prev) || !bytes.Equal(b.Encode(), f.c.pBlocks[h].Encode()) {
+				if int(b.Header.Height) != h || !bytes.Equal(b.Header.PreviousBlockID, prev) || !bytes.Equal(b.Encode(), f.chain()[h].Encode()) {
 					fails = append(fails, fail("c19-blocks-from-id-wrong", "block %d of the response is not the responder's block of height %d following the previous one", i, h))
 					break
 				}
@@ -238,7 +277,7 @@ func (f *fixture) blocksFromID(data []byte, id []byte, structured bool) (string,
 	toks = append(toks, "blocks", strconv.Itoa(len(resp.Blocks)))
 	for _, b := range resp.Blocks {
 		b.Init()
-		toks = append(toks, f.c.token(b.Header.ID, nil))
+		toks = append(toks, f.tok(b.Header.ID))
 	}
 	return strings.Join(toks, " "), fails
 }
